@@ -69,6 +69,16 @@ def gen(rng, ctx):
     if r < (0.06 if big else 0.03):
         libs = LIBS_THOROUGH if big else LIBS_QUICK
         return {"lib": rng.choice(libs), "vecs": [rng.getrandbits(64) for _ in range(3 if not big else 6)], "seed": rng.getrandbits(32)}
+    if r < (0.16 if big else 0.10):
+        # larger acyclic circuits: too many variables for the exhaustive clause evaluation, decided by
+        # bit-parallel simulation over the free signals and the bit-parallel DPLL on the clause list
+        ni = rng.randint(3, 10 if big else 8)
+        cd = G.rand_circuit(rng, ni, rng.randint(15, 45 if big else 30), max_fanin=5, p_wide=0.25, p_const=0.2)
+        if rng.random() < 0.3:
+            cd = G.add_blackboxes(rng, cd, 1, p_unconnected=0.0)
+        nodes = [n for n, _, _ in cd["nodes"]]
+        assumps = [{n: rng.random() < 0.5 for n in rng.sample(nodes, rng.randint(0, 5))} for _ in range(4)]
+        return {"c": cd, "kind": "large", "assumps": assumps, "probe": rng.sample(nodes, min(10, len(nodes))), "via": "graph"}
     maxn = 14 if big else 12
     ni = rng.randint(1, 5)
     ng = rng.randint(1, maxn - ni - 1)
@@ -153,9 +163,78 @@ def check_lib(case, ctx):
         ctx.violation("solve_raised", f"solve({case['lib']}) raised {res!r}")
 
 
+def check_large(case, ctx):
+    cg = ctx.cg
+    c = G.build(cg, case["c"], "graph")
+    net = Net.of(c)
+    ctx.count("class:large")
+    G.gate_arity_table(case["c"], ctx.table)
+    free = net.free()
+    if len(free) > 13 or net.has_x():
+        ctx.count("skipped:large_too_many_free")
+        return
+    vals, k = sim.functions(net, free)
+    mask = (1 << (1 << k)) - 1
+    ok, r = ctx.call(cg.sat.cnf, c)
+    if not ok:
+        ctx.violation("cnf_raised", f"sat.cnf raised {r!r}")
+        return
+    formula, variables = r
+    clauses = [list(cl) for cl in formula.clauses]
+    o2i = dict(variables.obj2id)
+    if any(n not in o2i for n in net.types) or len({o2i[n] for n in net.types}) != len(net.types):
+        ctx.violation("cnf_shared_variable", "nodes without / sharing CNF variables")
+        return
+    ind = [o2i[n] for n in free]
+    allsat = cnfeval.sat_over(clauses, ind)
+    ctx.count("cmp:cnf_large")
+    if allsat != mask:
+        j = ((allsat ^ mask) & -(allsat ^ mask)).bit_length() - 1
+        ctx.violation("cnf_rejects_consistent", f"CNF has no model for the startpoint valuation {sim.index_valuation(free, j)}")
+        return
+    for n in case["probe"]:
+        pos = cnfeval.sat_over(clauses + [[o2i[n]]], ind)
+        neg = cnfeval.sat_over(clauses + [[-o2i[n]]], ind)
+        ctx.count("cnf_large_nodes_checked")
+        if pos != vals[n] or neg != (vals[n] ^ mask):
+            d = (pos ^ vals[n]) | (neg ^ vals[n] ^ mask)
+            j = (d & -d).bit_length() - 1
+            ctx.violation("cnf_large_node_function", f"under {sim.index_valuation(free, j)} the CNF allows {n!r}={'1' if sim.bit_at(pos, j) else ''}{'0' if sim.bit_at(neg, j) else ''} but the circuit gives {sim.bit_at(vals[n], j)}")
+            return
+    for A in case["assumps"]:
+        ab = mask
+        for n, v in A.items():
+            ab &= vals[n] if v else vals[n] ^ mask
+        ok, res = ctx.call(cg.sat.solve, c, dict(A))
+        ctx.count("cmp:solve_large")
+        if not ok:
+            ctx.violation("solve_raised", f"solve({A}) raised {res!r}")
+        elif res is False:
+            ctx.count("answer:unsat")
+            if ab:
+                j = (ab & -ab).bit_length() - 1
+                ctx.violation("solve_false_but_sat", f"solve({A}) returned False but the startpoint valuation {sim.index_valuation(free, j)} satisfies the assumptions")
+        else:
+            ctx.count("answer:sat")
+            if not ab:
+                ctx.violation("solve_sat_but_unsat", f"solve({A}) returned a valuation although no consistent valuation agrees with the assumptions")
+                continue
+            if set(res) != set(net.types):
+                ctx.violation("solve_keys", f"solve({A}) keys differ from the circuit's nodes")
+                continue
+            j = sim.valuation_index(free, res)
+            bad = [n for n in net.types if bool(res[n]) != bool(sim.bit_at(vals[n], j))]
+            if bad:
+                ctx.violation("solve_inconsistent_model", f"solve({A}) returned a valuation in which {bad[:5]} do not equal their gate function")
+            elif any(bool(res[n]) != bool(v) for n, v in A.items()):
+                ctx.violation("solve_ignores_assumption", f"solve({A}) ignores an assumption")
+
+
 def check(case, ctx):
     if "lib" in case:
         return check_lib(case, ctx)
+    if case.get("kind") == "large":
+        return check_large(case, ctx)
     cg = ctx.cg
     cd = case["c"]
     via = case["via"] if "cyclic" not in case["kind"] else "graph"
@@ -284,7 +363,7 @@ def gates(counters, table, tier):
         for a in ("1", "2", "3", "4+"):
             if table.get(f"{t}/{a}", 0) < 3:
                 out.append(f"gate {t} at fan-in {a} seen {table.get(f'{t}/{a}', 0)} times")
-    for k in ("class:cyclic", "class:pins", "answer:unsat", "answer:sat", "cmp:cnf_exhaustive", "cnf_with_aux", "hostile:xor_a_b", "hostile:xor_inv", "class:lib"):
+    for k in ("class:cyclic", "class:pins", "answer:unsat", "answer:sat", "cmp:cnf_exhaustive", "cnf_with_aux", "hostile:xor_a_b", "hostile:xor_inv", "class:lib", "class:large", "cnf_large_nodes_checked"):
         if counters.get(k, 0) < 3:
             out.append(f"{k} seen {counters.get(k, 0)} times")
     return out
